@@ -151,7 +151,7 @@ def check(ctx):
     ctx.check(exact, "C06.R4", tm.qualname, tm.node.body[0], "TupleMethod no longer requires the exact length", tm, tm.node, detail="len(data) == len(elt_methods)")
     bm = model.find_method(SB, "mapping")
     t = norm(bm.node)
-    ok = "key['type'] != JsonType.STRING" in t and "raise ValueError" in t and "additionalProperties=value" in t and "patternProperties={key['pattern']: value}" in t
+    ok = ("key['type'] != JsonType.STRING" in t or "key.get('type') != JsonType.STRING" in t) and "raise ValueError" in t and "additionalProperties=value" in t and "patternProperties={key['pattern']: value}" in t
     ctx.check(ok, "C06.R4", bm.qualname, bm.node.body[0], "mapping schema must refuse non-string keys and describe values through additionalProperties / patternProperties", bm, bm.node, detail="string keys; value schema")
     bc = model.find_method(SB, "collection")
     ctx.check("items=self.visit(value_type)" in norm(bc.node), "C06.R4", bc.qualname, bc.node.body[0], "collection schema `items` is not the value type's schema", bc, bc.node, detail="items=self.visit(value_type)")
